@@ -58,6 +58,9 @@ type Ctx struct {
 	R    *RNG
 	Res  *Result
 	Tier string
+	// CrashOnly: only a panic, a timeout or excessive memory of the implementation counts as a disagreement (property C09 is
+	// about returning at all; what is returned is the business of the other properties)
+	CrashOnly bool
 }
 
 func (c *Ctx) Thorough() bool { return c.Tier == "thorough" }
@@ -81,6 +84,12 @@ func (c *Ctx) Compare(stream string, op M, impl, model M, class string, nontrivi
 	r := c.Res
 	key := sha256.Sum256([]byte(stream + canon(op)))
 	eq := reflect.DeepEqual(normalize(impl), normalize(model))
+	if c.CrashOnly {
+		_, panicked := impl["panic"]
+		_, timedOut := impl["timeout_s"]
+		_, heap := impl["heap_gib"]
+		eq = !(panicked || timedOut || heap)
+	}
 	r.mu.Lock()
 	defer r.mu.Unlock()
 	r.Evaluations++
@@ -206,7 +215,7 @@ func main() {
 				fmt.Fprintln(os.Stderr, "HARNESS-ERROR: cannot start driver:", err)
 				os.Exit(2)
 			}
-			c := &Ctx{D: d, R: r, Res: res, Tier: *tier}
+			c := &Ctx{D: d, R: r, Res: res, Tier: *tier, CrashOnly: *prop == "C09"}
 			s.Run(c)
 			d.Close()
 			dm.Lock()
